@@ -50,9 +50,14 @@ def collect_traces(ctx, focus, total, tag, agg, chunk=250, race=False, runner=No
     if runner is None:
         runner = lambda n, b, tg: run_scenarios(ctx, focus, n, b, tg, race)
     done = 0
+    import time as _time
     while done < total:
         n = min(chunk, total - done)
+        _t0 = _time.time()
         trace, crashed, blocked = runner(n, base + done, tag)
+        if not crashed and not blocked and n >= 5:
+            per = (_time.time() - _t0) / n
+            agg["per_scenario_s"] = min(agg.get("per_scenario_s", per), per)
         traces.append(trace)
         if crashed:
             agg["crashes"] += 1
@@ -81,7 +86,19 @@ def collect_traces(ctx, focus, total, tag, agg, chunk=250, race=False, runner=No
                 agg["stop"] = True
                 return traces
             agg["notes"]["unreproduced_timeouts"] = agg["notes"].get("unreproduced_timeouts", 0) + 1
+            agg.setdefault("blocked_once", []).append(blocked["seed"])
             if agg["notes"]["unreproduced_timeouts"] > 3:
+                # Four different scenarios in which a call did not come back within 10 s, none of which blocks again under the same
+                # seed: the blocking depends on the schedule (a runtime choice), not on the scenario.  It is a verdict only when the
+                # machine is demonstrably responsive - the other scenarios of this run took milliseconds each.
+                per = agg.get("per_scenario_s")
+                if per is not None and per < 0.2:
+                    core.report(ctx, "provider calls blocked (10 s) in %d different scenarios %s (%s); the same seeds did not block again: the blocking depends on the schedule"
+                                % (len(agg["blocked_once"]), agg["blocked_once"], focus),
+                                {"driver": "joe", "scenario_seeds": agg["blocked_once"], "focus": focus, "goroutines": blocked["dump"],
+                                 "seconds_per_scenario_otherwise": per}, "joe:blocked-sometimes")
+                    agg["stop"] = True
+                    return traces
                 raise core.ToolFailure("scenarios keep missing their deadline without blocking reproducibly (last: %s)" % blocked["seed"])
             done = (blocked["seed"] - base) + 1
             continue
